@@ -341,7 +341,11 @@ func polyApproxEq(l, r *Poly, tol float64) bool {
 	}
 	tolR := new(big.Rat)
 	tolR.SetFloat64(tol)
-	zeroTh := new(big.Rat).Mul(scale, tolR)
+	// a term present on one side only (or differing beyond its own relative tolerance) is still
+	// accepted as rounding residue of cancelling float literals when it is within a few ulps of the
+	// largest coefficient — NOT within Tol of it: a genuine small constant (a convergence
+	// tolerance such as 3e-14 next to coefficients of order 1) must stay distinguishable from 0
+	zeroTh := new(big.Rat).Mul(scale, big.NewRat(2, 1000000000000000))
 	keys := map[string]bool{}
 	for k := range l.terms {
 		keys[k] = true
@@ -707,4 +711,16 @@ func (s *Sym) inheritFlags(res *RF, from *Atom) {
 			ra.Unsigned = true
 		}
 	}
+}
+
+// Coeffs: the coefficients of the numerator's and denominator's terms.
+func (a *RF) Coeffs() []*big.Rat {
+	var out []*big.Rat
+	for _, t := range a.N.terms {
+		out = append(out, t.coef)
+	}
+	for _, t := range a.D.terms {
+		out = append(out, t.coef)
+	}
+	return out
 }
